@@ -10,12 +10,14 @@ def MV():
 
 
 def gmv(alg, keys, prefix, cls=P):
-    """Multivector with one distinct indeterminate per stored blade (the generic point)."""
-    return MV().fromkeysvalues(alg, tuple(keys), [cls.var(f'{prefix}{k}') for k in keys])
+    """Multivector with one distinct indeterminate per stored blade (the generic point).
+    The key tuple is a *fresh* object every time (like the results of real operations), so that anything keyed on the
+    identity of an operand's key tuple sees objects that are created, dropped and re-allocated."""
+    return MV().fromkeysvalues(alg, tuple(list(keys)), [cls.var(f'{prefix}{k}') for k in keys])
 
 
 def nmv(alg, keys, values):
-    return MV().fromkeysvalues(alg, tuple(keys), list(values))
+    return MV().fromkeysvalues(alg, tuple(list(keys)), list(values) if not hasattr(values, 'shape') else values)
 
 
 def mvdict(mv):
